@@ -231,8 +231,14 @@ def flow_rec(f):
             None if not f.dest else str(f.dest)]
 
 
+def pyparam(v, ints=False):
+    """a parameter value as the caller writes it: whole numbers as Python ints when the program says so"""
+    q = Fraction(v)
+    return int(q) if (ints and q.denominator == 1) else float(q)
+
+
 def params(o):
-    return {k: num(v) for k, v in (o.get("params") or {}).items()}
+    return {k: pyparam(v, o.get("int_params")) for k, v in (o.get("params") or {}).items()}
 
 
 def observe(m, o):
